@@ -202,7 +202,8 @@ def correspondence_scalar(ctx, rng, n_obj):
         n = int(rng.integers(3, 8))
         g = gen_grid(rng, n)
         pieces = []
-        for _ in range(int(rng.integers(1, 4))):
+        # every (operator, number of pieces) pair occurs within 18 objects; a single piece shares nothing with the object
+        for _ in range(1 + (oi // 6) % 3 if n_obj >= 18 else (1 + oi % 3 if oi % 2 else int(rng.integers(1, 4)))):
             _, rmin, rmax, c, r0, s, red = gen_poly_args(rng, kmax=4)
             rmin = _limit(rng, g, -1, g[-1]); rmax = rmin + float(rng.uniform(0.5, g[-1] + 1))
             if np.any((np.abs(g - rmax) < 1e-3 * max(1, rmax)) & (g != rmax)):
@@ -804,7 +805,7 @@ def run(ctx):
     cp = correspondence_poly(ctx, rng, nq, 2 if ctx.quick else 3)
     ca = correspondence_angular(ctx, rng, 150 if ctx.quick else 1500)
     cg = correspondence_ag(ctx, rng, 2 if ctx.quick else 12)
-    cs = correspondence_scalar(ctx, rng, 12 if ctx.quick else 90)
+    cs = correspondence_scalar(ctx, rng, 18 if ctx.quick else 90)
     csp = correspondence_spoly(ctx, rng, 6 if ctx.quick else 48, 2)
     corr_bad = bool(cp['func_bad'] or cp['abel_bad'] or cp['errors'] or ca['bad'] or ca['errors'] or cg['bad']
                     or cs['bad'] or cs['errors'] or csp['bad'] or csp['errors'])
